@@ -188,14 +188,25 @@ def crashing_load(how, out, gpath, genome, k, chrom):
 def raising_load(how, out, gpath, genome, k, chrom):
     """interrupt the load of [chrom] by an exception (Ctrl-C) raised at the k-th gene of the swap loop"""
     from transposon.density_data import DensityData
-    state = {"n": 0}
+    import h5py, errno
+    state = {"n": 0, "w": 0}
     real_idx = DensityData._index_of_gene
+    real_set = h5py.Dataset.__setitem__
     def idx(self, name):
         state["n"] += 1
         if state["n"] == k["k"]:
             raise KeyboardInterrupt()
         return real_idx(self, name)
-    DensityData._index_of_gene = idx
+    def setitem(self, args, val):
+        # mode "eio": ONE transient I/O error at the k-th write into a dataset (the storage recovers at once)
+        state["w"] += 1
+        if state["w"] == k["k"]:
+            raise OSError(errno.EIO, "Input/output error (injected once)")
+        return real_set(self, args, val)
+    if k.get("mode") == "eio":
+        h5py.Dataset.__setitem__ = setitem
+    else:
+        DensityData._index_of_gene = idx
     try:
         do_load(how, out, gpath, genome, only_chrom=chrom)
         return "completed"
@@ -203,6 +214,7 @@ def raising_load(how, out, gpath, genome, k, chrom):
         return type(e).__name__
     finally:
         DensityData._index_of_gene = real_idx
+        h5py.Dataset.__setitem__ = real_set
         import gc
         gc.collect()
 
@@ -291,7 +303,7 @@ def op_session(req):
                 steps_out.append({"interleave": st["interleave"], "outcomes": interleaved_loads(out, gpath, genome, st["interleave"], st["order"]),
                                   "files": sorted(os.listdir(out))})
                 continue
-            if st.get("crash") is not None and st["crash"].get("mode") == "raise":
+            if st.get("crash") is not None and st["crash"].get("mode") in ("raise", "eio"):
                 r_ = raising_load(st["how"], out, gpath, genome, st["crash"], st.get("chrom"))
                 steps_out.append({"crash": st["crash"], "outcome": r_, "files": sorted(os.listdir(out))})
                 continue
